@@ -150,3 +150,42 @@ prop("C10", "exploration",
       dict(name="c10_cd", sources=["c10_bkldlt.cpp"], flavour="asan", flags=["-DC10_T=std::complex<double>", "-DC10_COMPLEX"])],
      assumptions=TRUST + ["'nonsingular' is decided by a long-double full-pivoting LU of A - sigma I (smallest pivot > 1e3*n*eps*largest); inputs failing that are skipped, not judged",
                           "residual allowance 64*n*eps*(||A-sigma I||_F ||x|| + ||b||)"])
+
+
+# ------------------------------------------------------------------------------------------ C01
+SOLVER_DEPS = ["common/gen.hpp", "common/opwrap.hpp", "common/solvers.hpp", "common/oracle.hpp"]
+prop("C01", "exploration",
+     "random histories (length 1..4 quick / 1..8 thorough over init(), init(v), compute(args); every compute followed by the oracle) on SymEigsSolver (dense, sparse, user-defined operator), "
+     "HermEigsSolver (dense, sparse) and SymEigsShiftSolver (dense BKLDLT, sparse LU) over 12 matrix classes (generic, clustered, repeated, graded, low-rank, block-diagonal, definite, banded, "
+     "diagonal, multiple of identity, 2-D Laplacian, arrow), scales 1e-8..1e8, all legal (n, nev, ncv) shapes incl. ncv=nev+1 and ncv=n, five selection rules, tol from 4 eps, "
+     "maxit from 0, start vectors default / gaussian / eigenvector / invariant subspace / smallest-modulus eigenvector, shifts at 1e-1..1e-6 of the spread from an eigenvalue; "
+     "float/double/long double and their complex forms. Non-trivial = a history in which some compute() performed >= 1 restart and returned >= 1 pair; "
+     "distinct by (solver, class, n, nev, ncv, history word, scale, first entry)",
+     [dict(name="c01_%s%d" % (tn, g), sources=["c01_sym.cpp"], flavour="asan", flags=["-DC01_T=%s" % tt, "-DC01_GROUP=%d" % g], deps=SOLVER_DEPS)
+      for tn, tt in (("d", "double"), ("f", "float"), ("ld", "long double")) for g in (0, 1, 2)],
+     assumptions=TRUST + ["residuals are formed in long double from the exact entries the operator holds; norms/gaps come from a double-precision dense eigendecomposition"])
+
+
+# ------------------------------------------------------------------------------------------ C02
+prop("C02", "exploration",
+     "random histories (as C01) on GenEigsSolver, GenEigsRealShiftSolver and GenEigsComplexShiftSolver (dense and sparse wrappers each). Seeded exploration over the domain on which the "
+     "strict oracle is silent on the repaired tree (gaussian, normal and non-normal with prescribed spectrum, symmetric; norm within two decades of 1; default/gaussian start; shifts at >= 1e-2 "
+     "of the spread, complex shifts generic / near / above an eigenvalue / at the tie |lambda-Re sigma| = |Im sigma|) plus a fixed, seed-independent corpus over the finding-prone domain "
+     "(skew, orthogonal, permutation, triangular, companion, low-rank, block-diagonal, few distinct eigenvalues, nilpotent, identity-like, scales 1e-8..1e8, eigenvector / invariant-subspace starts, "
+     "shifts down to 1e-6 of the spread). Oracle: unit norm, complex residual against tol*scale (back-transformed for both shift modes) + rounding, no duplicated pair at a simple eigenvalue. "
+     "Non-trivial = some compute() performed >= 1 restart and returned >= 1 pair; distinct by (solver, class, n, nev, ncv, history word, scale, first entry)",
+     [dict(name="c02_%s%d" % (tn, g), sources=["c02_gen.cpp"], flavour="asan", flags=["-DC02_T=%s" % tt, "-DC02_GROUP=%d" % g], deps=SOLVER_DEPS)
+      for tn, tt in (("d", "double"), ("f", "float"), ("ld", "long double")) for g in (0, 1, 2)],
+     assumptions=TRUST + ["residuals are formed in long double from the exact entries the operator holds; norms, singular values and the reference spectrum come from double-precision dense decompositions"])
+
+
+# ------------------------------------------------------------------------------------------ C06
+ZOO_DEPS = SOLVER_DEPS + ["common/zoo.hpp"]
+prop("C06", "exploration",
+     "for each of 17 solver configurations (standard, shift-and-invert, generalized in all five modes; dense and sparse wrappers) and a generated problem (60% clean / 40% hostile domain): "
+     "the pair init(v)|init(); compute(args) is executed on (a) a fresh solver with a fresh operator, (b) a solver that first went through a random pre-history of length 0..4 (6 thorough) over "
+     "init(), init(v'), converging / non-converging / throwing compute() and accessor reads, (c) a second solver constructed on the operator object used by (b); the three snapshots "
+     "(return value, info, num_iterations, num_operations, raw bytes of eigenvalues() and eigenvectors()) must be identical, and the operator applied to a fixed vector must give the same bytes "
+     "before and after compute(). Non-trivial = the observed run restarted at least once and the pre-history was not empty; distinct by (solver, n, nev, ncv, pre-history word, maxit, operation count)",
+     [dict(name="c06_g%d" % g, sources=["c06_history.cpp"], flavour="asan", flags=["-DZOO_GROUP=%d" % g], deps=ZOO_DEPS) for g in (0, 1, 2)],
+     assumptions=TRUST + ["bitwise comparison is sound because all compared runs execute in one process on identically aligned Eigen buffers (no run-time dispatch in Eigen)"])
